@@ -73,6 +73,14 @@ pub fn mk_mem(cart_type: u8, rom_code: u8, ram_code: u8, patch: &[(usize, u8)]) 
   MemoryAreas::with_rom_file(&mut f, &h)
 }
 
+/// the real `Core::from_rom_file` on a pattern ROM of the declared size
+pub fn mk_core(cart_type: u8, rom_code: u8, ram_code: u8) -> crate::emulator::Core {
+  let h = header(cart_type, rom_code, ram_code);
+  let size = h.get_rom_size_bytes();
+  let mut f = rom_file_with("pat", size, &[]);
+  crate::emulator::Core::from_rom_file(&mut f, h)
+}
+
 pub fn fnv(h: u64, b: u8) -> u64 { (h ^ (b as u64)).wrapping_mul(0x100000001b3) }
 pub const FNV0: u64 = 0xcbf29ce484222325;
 
